@@ -1,6 +1,6 @@
 import logging
-import string
 
+from bardolph.lib.format_fields import field_names
 from bardolph.lib.i_lib import Output
 from bardolph.lib.injection import inject
 from bardolph.vm.vm_codes import IoOp, Register
@@ -44,11 +44,8 @@ class VmIo:
         format_str = inst.param1.replace('\\n', '\n')
         named = {}
         num_unnamed = 0
-        for field in string.Formatter().parse(format_str):
-            name = field[1]
-            if name is None:
-                continue
-            if len(name) == 0 or name.isdecimal():
+        for name in field_names(format_str):
+            if name == '' or isinstance(name, int):
                 num_unnamed += 1
             else:
                 value = self._call_stack.get_variable(name)
